@@ -414,6 +414,30 @@ def _ranks(vals):
     return rk
 
 
+def _rot_to(u, v):
+    """proper rotation taking the unit vector u to the unit vector v"""
+    u, v = u / np.linalg.norm(u), v / np.linalg.norm(v)
+    w = np.cross(u, v)
+    sn, cs = np.linalg.norm(w), float(u @ v)
+    if sn < 1e-12:
+        if cs > 0:
+            return np.eye(3)
+        p = np.cross(u, [1.0, 0, 0] if abs(u[0]) < 0.9 else [0, 1.0, 0])
+        p /= np.linalg.norm(p)
+        return 2 * np.outer(p, p) - np.eye(3)
+    k = w / sn
+    K = np.array([[0, -k[2], k[1]], [k[2], 0, -k[0]], [-k[1], k[0], 0]])
+    return np.eye(3) + sn * K + (1 - cs) * (K @ K)
+
+
+def _near_axis_rotation(rng, line):
+    k, j = rng.choice(3, 2, replace=False)
+    target = np.eye(3)[k] * rng.choice([-1, 1]) + np.eye(3)[j] * rng.choice([-1, 1]) * 10.0 ** (-rng.integers(2, 13))
+    if rng.random() < 0.3:
+        target = np.eye(3)[k] * rng.choice([-1, 1])
+    return _rot_to(np.asarray(line, float), target)
+
+
 def random_trace(seed, tid, workdir, props):
     from gaddlemaps import ExchangeMap
     rng = np.random.default_rng(seed)
@@ -429,7 +453,7 @@ def random_trace(seed, tid, workdir, props):
     nt = int(rng.integers(1, 61))
     centre = pos.mean(axis=0)
     tpos = centre + rng.uniform(-1, 1, (nt, 3)) * rng.choice([0.3, 1.0, 2.0])
-    s = float(rng.choice([rng.uniform(0.05, 2.0), 0.5, 1.0, 2.0]))
+    s = float(rng.choice([rng.uniform(0.05, 2.0), 0.5, 1.0, 2.0, 0.0]))
     names = ['C%d' % (i + 1) for i in range(n)]
     refmol = synth.make_molecule(os.path.join(workdir, 'rr'), 'RREF', names, bonds, np.round(pos, 3))
     tgt = synth.make_molecule(os.path.join(workdir, 'rt'), 'RTGT', ['T%d' % (i + 1) for i in range(nt)], [],
@@ -460,9 +484,30 @@ def random_trace(seed, tid, workdir, props):
     axes = axes / np.linalg.norm(axes, axis=1)[:, None]
     d_exp = s * np.linalg.norm(vec0, axis=1)
     ax_exp = s * (vec0 * axes).sum(axis=1)
+    def cond_slack(moved):
+        """rounding slack of the equivariance comparison, per target atom: the direction of the frame normal of
+        an anchor with a small angle theta between its frame neighbours is determined only to about
+        u * |coordinates| / (bond * sin theta); generic anchors (sin theta ~ 1) get ~1e-14, nothing else changes"""
+        big = max(float(np.abs(moved).max()), float(np.abs(pos).max()), 1.0)
+        out_ = np.zeros(nt)
+        for t in range(nt):
+            a = int(A[t])
+            if n >= 3 and a in triple:
+                _, n1, n2 = triple[a]
+                sn = _sin_at(pos, a, n1, n2)
+                ln = min(np.linalg.norm(pos[n1] - pos[a]), np.linalg.norm(pos[n2] - pos[a]))
+                if sn > 0 and ln > 0:
+                    out_[t] = 64 * 1.2e-16 * big / (ln * sn) * max(d_exp[t], 1e-3)
+        return out_
     if 'C02' in props or 'C01' in props:
         for _ in range(2 if 'C02' in props else 0):
             R = _random_rotation(rng)
+            if (deg or n == 2) and rng.random() < 0.6:
+                # bring the line of a collinear anchor (or the bond of a two-atom reference) to a tiny angle
+                # from a coordinate axis: the fall-back frame must be orthonormal in every direction
+                a0 = deg[0] if deg else 0
+                line = (pos[triple[a0][2]] - pos[a0]) if n >= 3 else (pos[1] - pos[0])
+                R = _near_axis_rotation(rng, line)
             tau = rng.uniform(-50, 50, 3) * rng.choice([0.0, 0.1, 1.0])
             ref2 = refmol.copy()
             ref2.atoms_positions = pos @ R.T + tau
@@ -475,7 +520,7 @@ def random_trace(seed, tid, workdir, props):
             rad2 = (vec * vec).sum(axis=1) - ax ** 2
             rad2e = d_exp ** 2 - ax_exp ** 2
             ev.append({'op': 'CallRigid', 'finite': fin,
-                       'eq': [bool(x) for x in (np.abs(out2 - exp).max(axis=1) <= 1e-8)] if fin else [False] * nt,
+                       'eq': [bool(x) for x in (np.abs(out2 - exp).max(axis=1) <= 1e-8 + cond_slack(pos @ R.T + tau))] if fin else [False] * nt,
                        'dist': [bool(x) for x in (np.abs(dist - d_exp) <= 1e-8)] if fin else [False] * nt,
                        'axial': [bool(x) for x in (np.abs(ax - ax_exp) <= 1e-8)] if fin else [False] * nt,
                        'radial': [bool(x) for x in (np.abs(rad2 - rad2e) <= 4e-8 * np.maximum(d_exp, 1e-2) + 1e-12)]
